@@ -28,6 +28,7 @@ from typing import Any, Dict, List, Optional, Tuple
 from ..core import Ctx, HarnessError, Report, Violation, jhash, mix32
 from ..gen_state import Stream
 from .. import rsclient
+from . import c13_machine as M
 
 PROPERTY = "C13"
 RULE = ("histories over (mti, sti, enabled): all period pairs in {0..12}^2 (complete, both tiers) plus sampled "
@@ -347,11 +348,10 @@ def run_py_emu(case: Dict[str, Any]) -> List[Any]:
 
 
 def run_rust(cases: List[Dict[str, Any]]) -> List[Any]:
-    rust = rsclient.shared()
     out: List[Any] = []
     B = 64
     for i in range(0, len(cases), B):
-        resp = rust.call({"cmd": "c13.batch", "cases": [
+        resp = M.rust_call({"cmd": "c13.batch", "cases": [
             {"mti": c["mti"], "sti": c["sti"], "enabled": c["enabled"], "isr0": c.get("isr0", 0), "ops": c["ops"],
              "runaway": RUNAWAY}
             for c in cases[i:i + B]]})
@@ -621,7 +621,10 @@ def evaluate(cases: List[Dict[str, Any]], with_emu: bool = True) -> List[Tuple[L
         ref, facts = ref_run(case)
         vs: List[Violation] = []
         try:
-            py = run_py_sched(case)
+            with M.py_watchdog("TimerScheduler history"):
+                py = run_py_sched(case)
+        except HarnessError:
+            raise
         except Exception as exc:  # noqa: BLE001 - an exception in the code under test is a verdict
             py = {"error": f"{type(exc).__name__}: {exc}"}
         v1, f1 = judge(case, ref, "py-sched", py, False)
@@ -633,7 +636,8 @@ def evaluate(cases: List[Dict[str, Any]], with_emu: bool = True) -> List[Tuple[L
             vs += differential(case, ref, py, rs_obs, f1, f2)
         if with_emu:
             try:
-                em = run_py_emu(case)
+                with M.py_watchdog("PCE500Emulator._tick_timers history"):
+                    em = run_py_emu(case)
             except HarnessError:
                 raise
             except Exception as exc:  # noqa: BLE001
@@ -899,6 +903,10 @@ def plan(seed: int, tier: str) -> List[Tuple[int, int, bool, str, int, str]]:
                 enabled = (h % 10) != 0          # 1 in 10 histories runs a disabled scheduler
                 kind = KINDS[(i + (h >> 8)) % 3] if i >= 3 else KINDS[i]   # every pair gets every kind
                 base = bases[(h >> 12) % len(bases)]
+                if not enabled:
+                    # a broken "disabled" path may spin from a parked target (Rust parks it at 0) up to the
+                    # current cycle; keep disabled histories at small cycle numbers so that stays cheap
+                    base = ("zero", "small")[(h >> 12) & 1]
                 out.append((mti, sti, enabled, kind, i, base))
     # large and mixed periods
     n_large = 600 if tier == "quick" else 12000
@@ -930,6 +938,8 @@ def plan(seed: int, tier: str) -> List[Tuple[int, int, bool, str, int, str]]:
         enabled = st.below(12) != 0
         kind = KINDS[st.below(3)]
         base = bases[st.below(len(bases))]
+        if not enabled:
+            base = ("zero", "small")[st.below(2)]
         out.append((mti, sti, enabled, kind, 100000 + i, base))
     return out
 
@@ -980,12 +990,61 @@ def _shard(task: Tuple[int, str, List[Tuple[int, int, bool, str, int, str]]]) ->
     return rep
 
 
+def _machine_labels(case: Dict[str, Any], facts: Dict[str, Any]) -> List[str]:
+    lab = ["layer:machine", "machine:enabled" if case["enabled"] else "machine:disabled"]
+    if "timer_base" in case:
+        lab.append("machine:targets>i32")
+    if any(s[1] for s in case["steps"]):
+        lab.append("machine:real-snapshot")
+    if facts.get("halt_idle"):
+        lab.append("machine:idle-halt-cycles")
+    if facts.get("wait_multi"):
+        lab.append("machine:multi-period-step")
+    if facts.get("max_step_cycles", 0) > 1:
+        lab.append("machine:multi-cycle-wait")
+    if facts.get("fires", 0) >= 2:
+        lab.append("machine:>=2-fires")
+    return lab
+
+
+def _machine_shard(task: Tuple[int, str, List[Tuple[Any, ...]]]) -> Report:
+    seed, tier, configs = task
+    rep = Report()
+    cases = [M.gen_machine_case(seed, *cfg) for cfg in configs]
+    n = 0
+    for i in range(0, len(cases), 32):
+        chunk = cases[i:i + 32]
+        for case, (vs, facts) in zip(chunk, M.evaluate_machine(chunk)):
+            for v in vs:
+                rep.violate(v)
+            nt = facts.get("fires", 0) >= 2
+            key = jhash(["m", case["mti"], case["sti"], case["enabled"], case["prog"], case["steps"]], 16) if nt else None
+            n += 1
+            sample = case if (n % 41 == 3 and len(case["steps"]) <= 40) else None
+            rep.case(key, _machine_labels(case, facts), sample)
+            rep.extra["machine_steps"] = rep.extra.get("machine_steps", 0) + facts.get("steps", 0)
+    return rep
+
+
+def _any_shard(task: Tuple[str, Any]) -> Report:
+    kind, payload = task
+    return _shard(payload) if kind == "core" else _machine_shard(payload)
+
+
 def run(ctx: Ctx) -> Report:
     rsclient.build()
+    M.selftest()
     configs = plan(ctx.seed, ctx.tier)
+    mconfigs = M.plan(ctx.seed, ctx.tier)
     nshards = 16 if ctx.quick else 64
-    tasks = [(ctx.seed, ctx.tier, configs[i::nshards]) for i in range(nshards)]
-    rep = ctx.merge_reports(ctx.pmap(_shard, tasks))
+    nm = 8 if ctx.quick else 32
+    tasks: List[Tuple[str, Any]] = []
+    for i in range(max(nshards, nm)):     # interleave so both layers spread over the pool
+        if i < nshards:
+            tasks.append(("core", (ctx.seed, ctx.tier, configs[i::nshards])))
+        if i < nm:
+            tasks.append(("machine", (ctx.seed, ctx.tier, mconfigs[i::nm])))
+    rep = ctx.merge_reports(ctx.pmap(_any_shard, tasks))
     rep.rule = RULE
     rep.assumptions = list(ASSUMPTIONS)
     rep.extra["small_period_pairs_complete"] = 169
@@ -995,6 +1054,8 @@ def run(ctx: Ctx) -> Report:
 
 def replay(ctx: Ctx, case: Dict[str, Any]) -> List[Violation]:
     rsclient.build()
+    if case.get("layer") == "machine":
+        return M.evaluate_machine([case])[0][0]
     vs, _ = evaluate([case])[0]
     return vs
 
@@ -1006,6 +1067,19 @@ def shrink(ctx: Ctx, v: Violation) -> Violation:
     t0 = time.time()
     key = v.key()
     best = v
+    if v.case.get("layer") == "machine":
+        steps = list(v.case["steps"])
+        lo, hi = 1, len(steps)
+        while lo < hi and time.time() - t0 < 40:
+            mid = (lo + hi) // 2
+            c2 = dict(v.case)
+            c2["steps"] = steps[:mid]
+            hit = [w for w in M.evaluate_machine([c2])[0][0] if w.key() == key]
+            if hit:
+                hi, best = mid, hit[0]
+            else:
+                lo = mid + 1
+        return best
 
     def probe(ops: List[List[Any]]) -> Optional[Violation]:
         case = dict(best.case)
